@@ -12,7 +12,9 @@
     `precedence` / `projectionPrecedence`;
   * `llevel` / `rlevel` and `WellPrec` — the declarative precedence discipline together with the lexical side
     conditions the parser enforces on tokens (index fits int64, slice step ≠ 0, builtin exists with that arity, `&`
-    only where the builtin wants it, keys are identifier tokens, literals decode).
+    only where the builtin wants it, keys are identifier tokens, literals decode);
+  * `projFollowers` / `isRhsFollower` — the tokens that follow the projections of a tree (for C01's "the right-hand side
+    extends until …").
 
   The implicit current node `icur` prints as nothing.  It is the left-most leaf of every right-hand side of a
   projection and of the leading forms `[*]`, `*`, `[]`, `[?…]`, `[n]`, `[a:b:c]`.  A tree is printed (and checked) in one
@@ -380,7 +382,7 @@ def eraseT (t : PTree) : Tree := desugar (erase t)
 def lmin (lvl : Nat) (l : PTree) (ll : Nat) : Nat := if l.isIcur then top else min lvl ll
 
 /-- `llevel t`: the lowest binding power among the forms on the left spine of `t`: `t` can be read by
-    `expression p`, or continued from its left-most operand by the operator loop at power `p`, iff `p < llevel t` -/
+    `expression p`, or continued from its left-most operand by the operator loop at power `p`, when `p < llevel t` -/
 def llevel : PTree → Nat
   | .bin op l _ => lmin ((binLevel op.type).getD 0) l (llevel l)
   | .dotId l _ => lmin lvlDot l (llevel l)
@@ -518,6 +520,52 @@ def WellPrec (t : PTree) : Prop := wp false t = true
 
 instance (t : PTree) : Decidable (WellPrec t) := inferInstanceAs (Decidable (_ = true))
 
+/-! ## What follows a projection -/
+
+/-- the tokens that may follow a projection (and hence its right-hand side): end of input, a closing token, a comma,
+    `in`, a binary operator (including `|`, `&&`, `||`), or `[]` -/
+def isRhsFollower : TokenType → Bool
+  | .end | .closeParen | .closeSqBrace | .closeBrace | .comma | .in | .flatten => true
+  | t => (binLevel t).isSome
+
+mutual
+/-- `projFollowers rhs t next`: for every projection form occurring in `t` (printed in position `rhs`, and followed by
+    the token `next`), the token that follows it in the printing -/
+def projFollowers : Bool → PTree → Token → List Token
+  | _, .icur, _ => []
+  | _, .atom _, _ => []
+  | _, .paren t, _ => projFollowers false t tRParen
+  | _, .not t, nx => projFollowers false t nx
+  | _, .neg _ t, nx => projFollowers false t nx
+  | _, .pos t, nx => projFollowers false t nx
+  | b, .bin op l r, nx => projFollowers b l op ++ projFollowers false r nx
+  | b, .dotId l r, nx => projFollowers b l tDot ++ projFollowers false r nx
+  | b, .dotList l es, _ => projFollowers b l tDot ++ projFollowersSep es tRBracket
+  | b, .dotHash l kvs, _ => projFollowers b l tDot ++ projFollowersKVs kvs tRBrace
+  | b, .dotStarList l, _ => projFollowers b l tDot
+  | b, .index l _, _ => projFollowers b l tLBracket
+  | _, .call _ args, _ => projFollowersSep args tRParen
+  | _, .ref t, nx => projFollowers false t nx
+  | _, .letIn bs body, nx => projFollowersKVs bs tIn ++ projFollowers false body nx
+  | _, .multiList es, _ => projFollowersSep es tRBracket
+  | _, .multiHash kvs, _ => projFollowersKVs kvs tRBrace
+  | b, .star l rhs, nx => nx :: (projFollowers b l tArrayStar ++ projFollowers true rhs nx)
+  | b, .ostar l rhs, nx => nx :: (projFollowers b l tDotStar ++ projFollowers true rhs nx)
+  | b, .flat l rhs, nx => nx :: (projFollowers b l tFlatten ++ projFollowers true rhs nx)
+  | b, .filt l c rhs, nx =>
+    nx :: (projFollowers b l tFilter ++ projFollowers false c tRBracket ++ projFollowers true rhs nx)
+  | b, .slice l _ _ _ rhs, nx => nx :: (projFollowers b l tLBracket ++ projFollowers true rhs nx)
+/-- the elements of a comma-separated list closed by `close` -/
+def projFollowersSep : List PTree → Token → List Token
+  | [], _ => []
+  | [e], close => projFollowers false e close
+  | e :: es, close => projFollowers false e tComma ++ projFollowersSep es close
+def projFollowersKVs : List (Token × PTree) → Token → List Token
+  | [], _ => []
+  | [(_, e)], close => projFollowers false e close
+  | (_, e) :: rest, close => projFollowers false e tComma ++ projFollowersKVs rest close
+end
+
 /-! ## The levels are those of the model -/
 
 theorem binLevel_precedence {t : TokenType} {l : Nat} (h : binLevel t = some l) : precedence t = l := by
@@ -607,6 +655,11 @@ example : erase e14 = .projectArray (.slice (.field (bs "foo")) 1 3) (.index (.f
 example : erase e12 = .index (.sortBy (.field (bs "a")) (.field (bs "b"))) 0 := rfl
 example : erase e13 = .defineVariables [(bs "$x", .field (bs "a"))] (.pipe (.variable (bs "$x")) (.field (bs "b"))) :=
   rfl
+
+/-- the projection of `foo[*].bar | [0]` is followed by `|`; those of `foo[].bar[]` by `[]` and by the end -/
+example : projFollowers false e02 ⟨.end, []⟩ = [op .pipe "|"] := by decide
+example : projFollowers false e05 ⟨.end, []⟩ = [⟨.end, []⟩, tFlatten] := by decide
+example : projFollowers false (.paren e01) ⟨.end, []⟩ = [tRParen] := by decide
 
 /-- the other readings are not well formed: `(foo[*].bar).baz` needs its parentheses, `(foo[*])[*]` too -/
 example : ¬ WellPrec (.dotId (.star (idt "foo") (.dotId .icur (idt "bar"))) (idt "baz")) := by decide
